@@ -591,12 +591,14 @@ pub fn check_assign_clock_domain(
         ));
     }
 
-    // A local `let` / `var` of an always block has no domain of its own
-    // (`None`); like an unannotated module variable it takes the domain of
-    // what it holds, so a crossing routed through it stays visible.
+    // A local `let` / `var` of an always block or of a function body (and
+    // the function's return value) has no domain of its own (`None`); like
+    // an unannotated module variable it takes the domain of what it holds,
+    // so a crossing routed through it stays visible.
     let is_block_local = dst.comptime.clock_domain == ClockDomain::None
         && (context.is_affiliated(Affiliation::AlwaysFf)
-            || context.is_affiliated(Affiliation::AlwaysComb));
+            || context.is_affiliated(Affiliation::AlwaysComb)
+            || context.is_affiliated(Affiliation::Function));
 
     if dst.comptime.clock_domain == ClockDomain::Implicit || is_block_local {
         let inferred = if context.is_affiliated(Affiliation::AlwaysFf) {
